@@ -139,6 +139,27 @@ def check_pivots(c):
             if deficient or any(a < b for a, b in zip(rz, rin)):
                 res.nt((c['shape'], c['ranks'], c['pat'], c.get('scales'), k, stab))
             res.outcome(tuple(rz))
+    # a pivot given as a NumPy integer (np.argmax, np.arange, an index array entry) is the same pivot
+    for kt in (np.int64, np.int32, np.intp, np.uint8):
+        for k in sorted({0, d - 1, d // 2}):
+            res.ev()
+            case = dict(c, k=k, ktype=kt.__name__)
+            try:
+                with warnings.catch_warnings():
+                    warnings.simplefilter('ignore')
+                    A1 = teneva.orthogonalize(Y, kt(k))
+                    A0 = teneva.orthogonalize(Y, k)
+                res.check(ref.core_bytes(A1) == ref.core_bytes(A0), 'pivot.numpy_int', case, 'a NumPy-integer pivot gives a different result than the Python int', tags)
+                if d >= 2:
+                    i = min(max(k, 0), d - 2)
+                    L1 = teneva.orthogonalize_left(Y, kt(i))
+                    L0 = teneva.orthogonalize_left(Y, i)
+                    R1 = teneva.orthogonalize_right(Y, kt(i + 1))
+                    R0 = teneva.orthogonalize_right(Y, i + 1)
+                    res.check(ref.core_bytes(L1) == ref.core_bytes(L0) and ref.core_bytes(R1) == ref.core_bytes(R0), 'pivot.numpy_int.step', case,
+                              'a NumPy-integer step number gives a different result', tags)
+            except Exception as ex:
+                res.fail('pivot.numpy_int', case, 'a valid pivot of type %s was rejected: %s' % (kt.__name__, type(ex).__name__), tags)
     for k in list(range(-d, 0)) + [d, d + 1]:
         for stab in (False, True):
             res.ev()
